@@ -316,7 +316,7 @@ def c07e(ctx):
         if isinstance(a0, ast.BinOp) and isinstance(a0.op, ast.Add) and same(a0.left, 'self.lock_file') and is_call(a0.right, 'str') and \
                 isinstance(a0.right.args[0], ast.Name):
             iv = a0.right.args[0].id
-    ok = bool(lf) and iv is not None and all(unparse(x.args[0]).replace(' ', '') == 'self.lock_file+str(%s)' % iv for x in lf)
+    ok = bool(lf) and iv is not None and all(same(x.args[0], 'self.lock_file+str(%s)' % iv) for x in lf)
     ctx.check(ok, 'SemLock._try_lock:slot-file', 'slot files are lock_file + str(slot)', fn)
     iv = iv or 'i'
     incs = [s for s in fn.walk() if isinstance(s, ast.AugAssign) and isinstance(s.target, ast.Name) and isinstance(s.op, ast.Add) and
